@@ -493,6 +493,15 @@ Section IndexedProofs.
     destruct (indexed_sim s sp m HR) as (s' & ret & Hr & HR' & Hout).
     rewrite Hr, (IH s' _ HR'), Hout. reflexivity.
   Qed.
+
+  Lemma indexed_refines_from s sp : R s sp ->
+    refines_from kcmp (indexed_step K V D I C istep iobs mk dstep dobs fuel) (x_kv K V I C dobs) s T sp.
+  Proof.
+    intros HR ms. revert s sp HR. induction ms as [|m ms IH]; intros s sp HR; cbn.
+    - apply R_obs. exact HR.
+    - destruct (indexed_sim s sp m HR) as (s' & ret & Hr & HR' & _).
+      unfold indexed_step at 2. rewrite Hr. apply IH. exact HR'.
+  Qed.
 End IndexedProofs.
 
 Theorem indexed_refines (K V D I C : Type) (kcmp : K -> K -> comparison)
@@ -508,5 +517,49 @@ Theorem indexed_refines (K V D I C : Type) (kcmp : K -> K -> comparison)
 Proof.
   intros ok Hok Hi Hmk Hf ms.
   apply (indexed_run_from K V D I C kcmp ok istep iobs mk dstep dobs il dl Hok Hmk fuel Hf).
+  exists SOI. split; [exact Hi|]. cbn. left. auto.
+Qed.
+
+(* the concatenation of the blocks is itself strictly sorted (so an indexed iterator can in turn
+   be a child of a merged iterator, as the levels of a DB are) *)
+Lemma index_ok_tail {K V D} (kcmp : K -> K -> comparison) (e : K * D) il (dl : D -> list (K * V)) :
+  index_ok kcmp (e :: il) dl -> index_ok kcmp il dl.
+Proof.
+  intros (H1 & H2 & H3 & H4). split; [|split; [|split]].
+  - apply (sorted_cons_inv kcmp) in H1. tauto.
+  - intros e' He'. apply H2. right. exact He'.
+  - intros e' x He'. apply H3. right. exact He'.
+  - intros a e1 b x Hl e' He' Hx. apply (H4 (e :: a) e1 b x (f_equal (cons e) Hl) e' He' Hx).
+Qed.
+
+Lemma concat_blocks_sorted {K V D} (kcmp : K -> K -> comparison) (ok : ord_ok kcmp) il (dl : D -> list (K * V)) :
+  index_ok kcmp il dl -> sorted_kv kcmp (concat_blocks il dl).
+Proof.
+  induction il as [|[ik dd] il IH]; intros Hok; [constructor|].
+  pose proof (index_ok_tail kcmp (ik, dd) il dl Hok) as Hok'.
+  destruct Hok as (H1 & H2 & H3 & H4).
+  change (concat_blocks ((ik, dd) :: il) dl) with (dl dd ++ concat_blocks il dl).
+  apply (sorted_app kcmp).
+  - apply (H2 (ik, dd)). left. reflexivity.
+  - apply IH. exact Hok'.
+  - intros x y Hx Hy. unfold concat_blocks in Hy. apply in_concat in Hy as (b & Hb & Hy).
+    apply in_map_iff in Hb as (e' & <- & He').
+    eapply (f_le_lt_trans kcmp ok); [apply (H3 (ik, dd) x); [left; reflexivity|exact Hx]|].
+    apply (H4 [] (ik, dd) il y eq_refl e' He' Hy).
+Qed.
+
+Theorem indexed_is_cursor (K V D I C : Type) (kcmp : K -> K -> comparison)
+  (istep : I -> move K -> I) (iobs : I -> option (K * D)) (mk : D -> C)
+  (dstep : C -> move K -> C) (dobs : C -> option (K * V))
+  (il : list (K * D)) (dl : D -> list (K * V)) (i0 : I) (fuel : nat) :
+  ord_ok kcmp -> index_ok kcmp il dl ->
+  refines kcmp istep iobs i0 il ->
+  (forall d, In d (map snd il) -> refines kcmp dstep dobs (mk d) (dl d)) ->
+  length il < fuel ->
+  refines kcmp (indexed_step K V D I C istep iobs mk dstep dobs fuel) (x_kv K V I C dobs) (x_init i0)
+          (concat_blocks il dl).
+Proof.
+  intros ok Hok Hi Hmk Hf.
+  apply (indexed_refines_from K V D I C kcmp ok istep iobs mk dstep dobs il dl Hok Hmk fuel Hf).
   exists SOI. split; [exact Hi|]. cbn. left. auto.
 Qed.
